@@ -232,8 +232,76 @@ pub fn via_session(out: &mut Out, networks: usize, burst: usize) {
     out.count("commands through a real client session");
 }
 
+/// Several producers AT ONCE through the real server: the real UnixServer scheduled in the real Runtime (its accept loop
+/// included), `clients` connections opened one after the other and ALL KEPT OPEN; every client registers and sends one
+/// command, the last one a stop-all; every command must reach the network's handler while all of them are still connected.
+pub fn via_server(out: &mut Out, clients: usize) {
+    use std::io::Write;
+    crate::sess::ensure_instance();
+    let rt = tokio::runtime::Builder::new_multi_thread().worker_threads(2).enable_all().build().unwrap();
+    let shared = Arc::new(Shared {
+        handled: Mutex::new(vec![vec![]; 1]),
+        completed: Mutex::new(vec![vec![]; 1]),
+        gates: vec![Arc::new(Semaphore::new(1_000_000))],
+        sender: Mutex::new(None),
+    });
+    let dir = std::path::PathBuf::from(format!("/verif/.cache/c15srv-{}", std::process::id()));
+    let _ = std::fs::create_dir_all(&dir);
+    let path = dir.join("s.sock");
+    let _ = std::fs::remove_file(&path);
+    let mut toks = vec![];
+    let lists = rt.block_on(async {
+        let mut runtime = glonax::Runtime::default();
+        runtime.schedule_io_sub_service::<glonax::service::UnixServer, glonax::service::UnixServerConfig>(glonax::service::UnixServerConfig { path: path.clone() });
+        runtime.schedule_net_service::<StubNet, NetCfg>(NetCfg { idx: 0, shared: shared.clone() }, Duration::from_secs(3600));
+        tokio::time::sleep(Duration::from_millis(30)).await;
+        let mut conns = vec![];
+        for k in 0..clients {
+            let p2 = path.clone();
+            let last = k + 1 == clients;
+            let v = 100 + k as i16;
+            // blocking client on its own thread (connect, register, one command), the connection is handed back and kept open
+            let c = tokio::task::spawn_blocking(move || {
+                let mut c = std::os::unix::net::UnixStream::connect(&p2).ok()?;
+                let mut bytes = crate::sess::frame(0x10, &[0x00, b'c']);
+                let vb = v.to_be_bytes();
+                bytes.extend(if last { crate::sess::frame(0x20, &[0x00]) } else { crate::sess::frame(0x20, &[0x05, vb[0], vb[1]]) });
+                c.write_all(&bytes).ok()?;
+                Some(c)
+            })
+            .await
+            .ok()
+            .flatten();
+            toks.push(if last { "s:9999".to_string() } else { format!("s:{}", v) });
+            conns.push(c);
+            // what the handler has by now (every client still connected): up to 1 s for this client's command to arrive
+            let want = k + 1;
+            let t = std::time::Instant::now();
+            while t.elapsed() < Duration::from_millis(1000) && shared.handled.lock().unwrap()[0].len() < want {
+                tokio::time::sleep(Duration::from_millis(5)).await;
+            }
+            let have = shared.handled.lock().unwrap()[0].len();
+            let before: usize = toks.iter().filter(|t| t.starts_with("r:")).map(|t| t.rsplit(':').next().unwrap().parse::<usize>().unwrap()).sum();
+            if have > before {
+                toks.push(format!("r:0:{}", have - before));
+            }
+        }
+        let h = shared.handled.lock().unwrap();
+        let l: Vec<String> = h.iter().map(|l| if l.is_empty() { "-".to_string() } else { l.iter().map(|x| x.to_string()).collect::<Vec<_>>().join(",") }).collect();
+        drop(conns);
+        l
+    });
+    drop(rt);
+    let _ = std::fs::remove_dir_all(&dir);
+    out.case(&format!("bus 1 {}", toks.join(" ")), &lists.join(";"), true);
+    out.count(&format!("{} clients connected at once through the real server", clients));
+}
+
 pub fn run(out: &mut Out, tier: &str, rng: &mut Rng) {
     let thorough = tier == "thorough";
+    for clients in [1usize, 2, 3, 5] {
+        via_server(out, clients);
+    }
     out.rule = "the real Runtime::schedule_net_service command task(s) (1..3 networks) fed by the real CommandSender obtained through a scheduled producer service; handlers are held back by permits so that producers outrun them: bursts of 1..64 (quick) / 1..200 (thorough) commands sent while a handler is blocked, released at scripted points, interleaved with further sends; random schedules. Observed: the ordered list of commands each network's on_command received. Non-trivial = some burst exceeds the queue capacity of 16".into();
     let max_burst = if thorough { 200 } else { 64 };
     for networks in 1..=3usize {
